@@ -168,6 +168,48 @@ def havoc_value(E, name, v):
     raise Unsupported('cannot havoc %s = %r' % (name, v))
 
 
+def _keep_by_instances(E, goal, hyps, s, nm):
+    """a universally quantified invariant re-established for arbitrary (fresh) values of its bound variables from the
+    INSTANCES, at those same values, of the quantified hypotheses (the invariant before the iteration, the named facts):
+    a quantifier-free query; when it does not go through, the ordinary quantified attempt follows"""
+    import itertools
+    nv = goal.num_vars()
+    fresh = [z3.Const(fresh_name('keep.' + goal.var_name(k)), goal.var_sort(k)) for k in range(nv)]
+    body = z3.substitute_vars(goal.body(), *reversed(fresh))
+    ground = []
+    for h in hyps:
+        if z3.is_quantifier(h) and h.is_forall():
+            m = h.num_vars()
+            if m > 2:
+                continue
+            cands = [f for f in fresh]
+            for combo in itertools.product(cands, repeat=m):
+                if all(c.sort() == h.var_sort(k) for k, c in enumerate(combo)):
+                    ground.append(z3.substitute_vars(h.body(), *reversed(combo)))
+        else:
+            ground.append(h)
+    from .engine import Obligation, _has_quant
+    qf = [a for a in E.assumptions if not _has_quant(a)]
+    sol = z3.Solver()
+    sol.set('timeout', min(E.timeout_ms, 4000))
+    for a in qf + ground:
+        sol.add(a)
+    sol.add(z3.Not(body))
+    import time as _t
+    t0 = _t.time()
+    r = sol.check()
+    if r != z3.unsat:
+        return False
+    ob = Obligation(nm, 'inv-keep', qf + ground, body, getattr(s, 'lineno', None), 'by instances')
+    ob.status, ob.backend, ob.time = 'unsat', 'z3', _t.time() - t0
+    ob.path = list(E.trace[:E.pos])
+    E.stats['z3_time'] += ob.time
+    E.stats['checks'] += 1
+    E._record(ob)
+    E.assume(goal)
+    return True
+
+
 def _same_binding(a, b):
     if a is b:
         return True
@@ -290,6 +332,7 @@ def exec_for(E, s):
             t = E.spec_bool(inv, inv_env(Z(k, INT)))
             inv_assumed.append(t)
             E.assume(t)
+        E.st.ghost.setdefault('facts', {})['loop%d-inv' % ordinal] = list(inv_assumed)
         if not E.feasible():
             raise Infeasible()
         E.assign(s.target, spec_iter.elem(k))
@@ -317,6 +360,8 @@ def exec_for(E, s):
                     v = facts.get(u)
                     if v is not None:
                         hyps.extend(v if isinstance(v, list) else [v])
+                if z3.is_quantifier(goal) and goal.is_forall() and _keep_by_instances(E, goal, hyps, s, nm):
+                    continue
                 E.oblige_focused('inv-keep', hyps, goal, s, name=nm)
         raise StopPath()
     havoc()
@@ -326,6 +371,7 @@ def exec_for(E, s):
         exit_facts.append(t)
         E.assume(t)
     E.st.ghost.setdefault('facts', {})['loop%d-exit' % ordinal] = exit_facts
+    E.st.ghost.setdefault('facts', {})['loop%d-inv' % ordinal] = exit_facts
     if not E.feasible():
         raise Infeasible()
     E.st.env[kname] = Z(N, INT)
